@@ -108,7 +108,8 @@ impl<'a> G<'a> {
             self.idc += 1;
             let id = format!("_{}", self.idc);
             let attr = if name_ok && self.r.chance(1, 2) { "name" } else { "id" };
-            n.add_attr(attr, id.clone());
+            // (in front of the other attributes as often as behind them)
+            if self.r.chance(1, 2) { if let N::E(_, attrs, _) = n { attrs.insert(0, (attr.into(), id.clone())); } } else { n.add_attr(attr, id.clone()); }
             self.ids.push(id);
         }
     }
@@ -209,12 +210,15 @@ impl<'a> G<'a> {
         let nrows = 1 + self.r.below(4);
         let ncols = 1 + self.r.below(4) as usize;
         let mut rows = Vec::new();
+        // (sometimes the whole first column is empty: it gets no width, and what its cells carry moves on)
+        let empty_first = ncols >= 2 && self.r.chance(1, 6);
         for _ in 0..nrows {
             let mut cellsv = Vec::new();
             let mut c = 0usize;
             while c < ncols {
-                let span = if f.colspan && self.r.chance(1, 4) { 1 + self.r.below((ncols - c) as u64) as usize } else { 1 };
+                let span = if f.colspan && !(empty_first && c == 0) && self.r.chance(1, 4) { 1 + self.r.below((ncols - c) as u64) as usize } else { 1 };
                 let kids = match self.r.below(8) {
+                    _ if empty_first && c == 0 => vec![],
                     0 => vec![],
                     1 | 2 | 3 => vec![N::T(self.token())],
                     4 if f.nested_tables && self.in_table < 2 && depth < f.maxdepth => vec![self.table(depth + 1)],
